@@ -290,7 +290,7 @@ Proof. vm_compute. split; reflexivity. Qed.
 
 (* the label filters of a shortcut pipeline are all applied to the fingerprint selection *)
 Lemma plan_ts_filters : forall ppl (fp0 : planner),
-  (forall st, List.In st ppl -> is_parser st = false) ->
+  (forall st, List.In st ppl -> is_relabel st = false) ->
   fp_label_filters (fold_left (fun fp sb => match fst sb, snd sb with
                                             | PLabelFilter f, true => PSimpleLabelFilter f fp
                                             | _, _ => fp end) (combine ppl (simple_ops ppl)) fp0)
@@ -303,7 +303,7 @@ Proof.
     destruct st; cbn [fst snd is_label_filter fp_label_filters]; try reflexivity.
     now rewrite <- app_assoc.
 Qed.
-Lemma m15_ok_not_parser st : m15_stage_ok st = true -> is_parser st = false.
+Lemma m15_ok_not_parser st : m15_stage_ok st = true -> is_relabel st = false.
 Proof. destruct st; cbn; congruence. Qed.
 
 Theorem shortcut_keeps_label_filters s :
@@ -832,13 +832,13 @@ Section CHAIN.
   Lemma last_is_unwrap_last ppl : last_is_unwrap ppl = match last_st ppl with Some (PUnwrap _) => true | _ => false end.
   Proof. unfold last_is_unwrap. rewrite <- rev_head_last. destruct (rev ppl) as [|[] ?]; reflexivity. Qed.
 
-  Lemma plan_spl_unwrap : forall ppl simple i lji fpp cur spl label,
+  Lemma plan_spl_unwrap : forall ppl simple i lji rl ri fpp cur spl label,
     List.length simple = List.length ppl ->
-    plan_spl ppl simple (renew_after ppl) i lji fpp cur = Some spl -> nmh cur = true ->
+    plan_spl ppl simple (renew_after ppl rl ri) i lji fpp cur = Some spl -> nmh cur = true ->
     last_st ppl = Some (PUnwrap label) ->
     exists spl', spl = PUnwrapP label spl' /\ nmh spl' = true.
   Proof.
-    induction ppl as [|s r IH]; intros simple i lji fpp cur spl label Hl E H Hlast; [discriminate|].
+    induction ppl as [|s r IH]; intros simple i lji rl ri fpp cur spl label Hl E H Hlast; [discriminate|].
     destruct simple as [|b bs]; [discriminate|]. cbn [renew_after plan_spl] in E.
     set (cur1 := if match lji with Some j => Nat.eqb i j | None => false end
                  then PLabelsJoin (PMainOrderBy ["timestamp_ns"%string] cur) fpp PTimeSeriesInit true else cur) in E.
@@ -849,12 +849,12 @@ Section CHAIN.
     - cbn in Hlast. inversion Hlast; subst s. cbn in Es. inversion Es; subst cur2.
       destruct bs; cbn in E; inversion E; subst spl; exists cur1; split; auto.
     - cbn [last_st] in Hlast. eapply (IH bs); [cbn in Hl |- *; lia|exact E| |exact Hlast].
-      destruct (is_parser s && negb (is_parser s')); [reflexivity|exact H2].
+      match goal with |- nmh (if ?bb then _ else _) = true => destruct bb end; [reflexivity|exact H2].
   Qed.
 
   Lemma simple_ops_length ppl : List.length (simple_ops ppl) = List.length ppl.
   Proof.
-    induction ppl as [|s r IH]; [reflexivity|]. cbn [simple_ops]. destruct (is_parser s); cbn; [now rewrite map_length|now rewrite IH].
+    induction ppl as [|s r IH]; [reflexivity|]. cbn [simple_ops]. destruct (is_relabel s); cbn; [now rewrite map_length|now rewrite IH].
   Qed.
 
   (* --- the tail every metric plan ends with --- *)
@@ -911,9 +911,9 @@ Section CHAIN.
   Definition dur_ok (d : Z) : Prop := 0 < d.
 
   (* the rows a range aggregation yields from the rows leaving the log pipeline *)
-  Theorem lra_chain_correct c base lj l spl ppl simple i lji fpp cur :
+  Theorem lra_chain_correct c base lj l spl ppl simple i lji rl ri fpp cur :
     sel_pipeline (lra_sel l) = ppl -> List.length simple = List.length ppl ->
-    plan_spl ppl simple (renew_after ppl) i lji fpp cur = Some spl -> nmh cur = true ->
+    plan_spl ppl simple (renew_after ppl rl ri) i lji fpp cur = Some spl -> nmh cur = true ->
     dur_ok (lra_dur_ns l) -> consistent base -> nonneg base ->
     match sem (lra_chain lj l spl) c base with
     | Some rows => ref_lra to_float varpop stddevpop l (map entry_of base) = Some (map strip rows) /\ consistent rows /\ nonneg rows
@@ -939,7 +939,7 @@ Section CHAIN.
         - unfold ref_range. destruct (lra_f l); cbn in Ev; try discriminate; reflexivity. }
     assert (Elast : last_st ppl = Some (PUnwrap label)) by (destruct (last_st ppl) as [[]|]; congruence).
     (* unwrapped *)
-    destruct (plan_spl_unwrap _ _ _ _ _ _ _ label Hl Espl Hcur Elast) as [spl' [-> Hnm']].
+    destruct (plan_spl_unwrap _ _ _ _ _ _ _ _ _ label Hl Espl Hcur Elast) as [spl' [-> Hnm']].
     destruct (sem_nmh c base spl' Hnm') as [rows0 [E0 S0]].
     cbn [LogqlMetricSem.sem]. rewrite sem_bw_opt. cbn [LogqlMetricSem.sem]. rewrite E0. cbn [option_map].
     pose proof (shape_consistent _ _ S0 Hc) as Hc0. pose proof (shape_nonneg _ _ S0 Hn) as Hn0.
@@ -964,7 +964,7 @@ Section CHAIN.
     let ppl := sel_pipeline sel in
     let simple := simple_ops ppl in
     let fpp := plan_ts (sel_matchers sel) ppl simple in
-    plan_spl ppl simple (renew_after ppl) 0 (labels_join_idx ppl simple 0) fpp (PFingerprintFilter fpp PMainInit).
+    plan_spl ppl simple (renew_after ppl (labels_join_idx ppl simple 0) 0) 0 (labels_join_idx ppl simple 0) fpp (PFingerprintFilter fpp PMainInit).
   Definition lj_of (s : script) : bool :=
     let ppl := sel_pipeline (stream_selector s) in is_some (labels_join_idx ppl (simple_ops ppl) 0).
   Lemma plan_metric_unfold s fin : analyze_m15 s = false ->
@@ -1057,7 +1057,7 @@ Section CHAIN.
       eapply lra_chain_correct; try eassumption; try reflexivity; try apply simple_ops_length; try apply Hcur.
     - (* SAgg *)
       unfold ref_aggop. rewrite sem_cmp_opt. cbn [LogqlMetricSem.sem]. rewrite sem_bw_opt.
-      pose proof (lra_chain_correct c base lj (agg_lra a) spl _ _ _ _ _ _ eq_refl (simple_ops_length _) Espl (Hcur _) Hok Hc Hn) as Hl.
+      pose proof (lra_chain_correct c base lj (agg_lra a) spl _ _ _ _ _ _ _ _ eq_refl (simple_ops_length _) Espl (Hcur _) Hok Hc Hn) as Hl.
       destruct (sem (lra_chain lj (agg_lra a) spl) c base) as [rows|]; cbn [option_map].
       + destruct Hl as [-> [Hc1 Hn1]].
         destruct (maybe_bw_inv fp fp_inj (grouping (agg_prefix a) (agg_suffix a)) rows Hc1 Hn1) as [Hc2 Hn2].
@@ -1070,7 +1070,7 @@ Section CHAIN.
       rewrite sem_cmp_opt. cbn [LogqlMetricSem.sem]. rewrite sem_bw_opt.
       rewrite unwrap_label_last in Hul |- *.
       destruct (last_st (sel_pipeline (q_sel q))) as [[| | | | |label|]|] eqn:Elast; try congruence.
-      destruct (plan_spl_unwrap _ _ _ _ _ _ _ label (simple_ops_length _) Espl (Hcur _) Elast) as [spl' [-> Hnm']].
+      destruct (plan_spl_unwrap _ _ _ _ _ _ _ _ _ label (simple_ops_length _) Espl (Hcur _) Elast) as [spl' [-> Hnm']].
       destruct (sem_nmh c base spl' Hnm') as [rows0 [E0 S0]].
       cbn [LogqlMetricSem.sem]. rewrite E0. cbn [option_map].
       pose proof (shape_consistent _ _ S0 Hc) as Hc0. pose proof (shape_nonneg _ _ S0 Hn) as Hn0.
@@ -1329,3 +1329,52 @@ Definition ex_short : script :=
           agg_suffix := None; agg_cmp := None |}.
 Example shortcut_metric_hyp : analyze_m15 ex_short = true /\ exists p, plan_metric ex_short true = Some p.
 Proof. split; [reflexivity|eexists; reflexivity]. Qed.
+
+(* ================= every planned stage takes effect (the non-shortcut path) ================= *)
+(* what planSpl does with one stage: it wraps the current planner into the planner of the stage, except for a label
+   filter flagged simple (before the first parser), which plan_ts applies to the fingerprint selection instead;
+   line_format and label_format are refused (None), so no stage of a planned pipeline is dropped *)
+Definition wraps (st : stage) (cur cur' : planner) : Prop :=
+  match st with
+  | PLineFilter op v rl => cur' = PLineFilterP op v rl cur
+  | PLabelFilter f => cur' = PLabelFilterP f cur
+  | PParser fn ps => cur' = PParserP fn ps cur
+  | PUnwrap l => cur' = PUnwrapP l cur
+  | PDrop ps => cur' = PDropP ps cur
+  | PLineFormat _ | PLabelFormat => False
+  end.
+Theorem plan_stage_effect st b cur cur' :
+  (b = true -> is_label_filter st = true) -> plan_stage st b cur = Some cur' ->
+  (is_label_filter st = true /\ b = true /\ cur' = cur) \/ wraps st cur cur'.
+Proof.
+  intros Hb E. destruct st as [op v rl|f|fn ps|t| |l|ps]; cbn [plan_stage] in E; try discriminate.
+  - right. inversion E. reflexivity.
+  - destruct b; inversion E; [left; auto|right; reflexivity].
+  - right. inversion E. reflexivity.
+  - right. inversion E. reflexivity.
+  - destruct b; [specialize (Hb eq_refl); discriminate|]. right. inversion E. reflexivity.
+Qed.
+Lemma simple_ops_label_filters ppl : forall st b, In (st, b) (combine ppl (simple_ops ppl)) -> b = true -> is_label_filter st = true.
+Proof.
+  induction ppl as [|s r IH]; intros st b H Hb; cbn [simple_ops] in H; [contradiction|].
+  destruct (is_relabel s).
+  - subst b. change (map (fun _ : stage => false) (s :: r)) with (false :: map (fun _ : stage => false) r) in H.
+    cbn [combine] in H. destruct H as [H|H]; [inversion H|].
+    exfalso. clear IH. induction r as [|x r IHr]; cbn in H; [contradiction|]. destruct H as [H|H]; [inversion H|auto].
+  - cbn [combine] in H. destruct H as [H|H]; [inversion H; subst; assumption|]. now apply (IH st b).
+Qed.
+Lemma plan_ts_flagged : forall ppl simple (fp0 : planner),
+  fp_label_filters (fold_left (fun fp sb => match fst sb, snd sb with
+                                            | PLabelFilter f, true => PSimpleLabelFilter f fp
+                                            | _, _ => fp end) (combine ppl simple) fp0)
+  = (fp_label_filters fp0 ++ flat_map (fun sb => match fst sb, snd sb with PLabelFilter f, true => [f] | _, _ => [] end) (combine ppl simple))%list.
+Proof.
+  induction ppl as [|st r IH]; intros simple fp0; [cbn; now rewrite app_nil_r|].
+  destruct simple as [|b bs]; [cbn; now rewrite app_nil_r|]. cbn [combine fold_left flat_map fst snd].
+  rewrite IH. destruct st; try reflexivity. destruct b; [|reflexivity]. cbn [fp_label_filters]. now rewrite <- app_assoc.
+Qed.
+(* the label filters flagged simple are exactly those applied to the fingerprint selection *)
+Theorem simple_filters_applied ms ppl :
+  fp_label_filters (plan_ts ms ppl (simple_ops ppl)) =
+  flat_map (fun sb => match fst sb, snd sb with PLabelFilter f, true => [f] | _, _ => [] end) (combine ppl (simple_ops ppl)).
+Proof. unfold plan_ts. now rewrite plan_ts_flagged. Qed.
